@@ -344,6 +344,11 @@ func PublishContext[T any](bus *EventBus, ctx context.Context, event T) {
 
 		// For once handlers, use CompareAndSwap to ensure atomic execution
 		if h.once {
+			// A publish that skips the handler because its context is already
+			// cancelled must not consume it
+			if ctx.Err() != nil {
+				continue
+			}
 			if !atomic.CompareAndSwapUint32(&h.executed, 0, 1) {
 				continue // Already executed
 			}
